@@ -57,6 +57,8 @@ func opaqueParts(t *Term, allow map[string]bool) []string {
 	t.walk(func(x *Term) {
 		var why string
 		switch x.Op {
+		case "closure":
+			why = "function literal " + x.Name
 		case "unknown", "outparam", "closurewrite", "rec", "any", "freevar", "select":
 			if !(x.Op == "outparam" && allow["outparam["+x.Name+"]"]) {
 				why = x.Op + "[" + x.Name + "]"
